@@ -121,21 +121,20 @@ package op
 //@ define ksemi(k) spec.keySemi(note.letter(k.Name), kacc(k.Accidental))
 //@ define ksig(k) spec.signature(note.letter(k.Name), kacc(k.Accidental), k.Minor)
 // a ring of twelve members; member i holds exactly the supported keys of the mode at position i, each with its scale
-//@ define wfCircle(c, minor) len(c.r) == 12 && forall(i, 0, 12, forall(k, Key, dom(c.r[i].scales, k) == (supported(k) && k.Minor == minor && cidx(k) == i)) && forall(k, Key, dom(c.r[i].scales, k) ==> c.r[i].scales[k] != nil && c.r[i].scales[k].Key == k))
+//@ define wfCircle(c, minor) len(c.r) == 12 && forall(i, 0, len(c.r), forall(k, Key, dom(c.r[i].scales, k) == (supported(k) && k.Minor == minor && cidx(k) == i)) && forall(k, Key, dom(c.r[i].scales, k) ==> c.r[i].scales[k] != nil && c.r[i].scales[k].Key == k))
 //@ define wfCOF(c) wfCircle(c.Majors, false) && wfCircle(c.Minors, true)
 //@ define memberIs(m, minor, i) forall(k, Key, dom(m.scales, k) == (supported(k) && k.Minor == minor && cidx(k) == i)) && forall(k, Key, dom(m.scales, k) ==> m.scales[k] != nil && m.scales[k].Key == k)
 
 // Keys uses the iterator helpers maps.Keys / slices.Collect (outside the modelled subset): assumed.
 //@ func CircleMember.Keys returns (r)
 //@   trusted
-//@   allocs util.Set[Key]
+//@   allocs map[Key]bool
 //@   ensures r != nil && forall(k, Key, r[k] == dom(c.scales, k))
 
 //@ func Circle.Index returns (i, ok)
-//@   requires wfCircle(c, false) || wfCircle(c, true)
-//@   ensures wfCircle(c, key.Minor) ==> ok == supported(key)
-//@   ensures ok ==> 0 <= i && i < 12 && dom(c.r[i].scales, key) && i == cidx(key)
-//@   ensures !ok ==> i == 0 - 1
+//@   requires len(c.r) == 12
+//@   ensures ok ==> 0 <= i && i < 12 && dom(c.r[i].scales, key)
+//@   ensures !ok ==> i == 0 - 1 && forall(j, 0, len(c.r), !dom(c.r[j].scales, key))
 //@   loop 0 invariant 0 <= i && i < 12
 //@   loop 0 invariant forall(j, 0, i, !dom(c.r[j].scales, key))
 //@   loop 0 decreases 12 - i
@@ -147,31 +146,35 @@ package op
 
 //@ func CircleOfFifth.index returns (i, err)
 //@   requires wfCOF(c)
-//@   ensures (err == nil) == supported(key)
-//@   ensures err == nil ==> i == cidx(key)
+//@   ensures err == nil ==> supported(key) && i == cidx(key)
+//@   ensures err != nil ==> !(supported(key) && 0 <= cidx(key) && cidx(key) < 12)
 
 //@ func CircleOfFifth.find returns (m, err)
 //@   requires wfCOF(c)
-//@   ensures (err == nil) == supported(key)
+//@   ensures (err == nil) == (supported(key) && 0 <= cidx(key) && cidx(key) < 12)
 //@   ensures err == nil ==> memberIs(m, isMinor, spec.fmod(cidx(key) + indexDelta, 12))
 
 // The four conversions, stated as in the property: what the target keys are, and that all their supported spellings are listed.
 //@ func CircleOfFifth.Dominant returns (m, err)
+//@   enumerate key in keySignatures
 //@   requires wfCOF(c)
 //@   ensures (err == nil) == supported(key)
 //@   ensures err == nil ==> forall(k, Key, dom(m.scales, k) == (supported(k) && k.Minor == key.Minor && spec.fmod(ksemi(k) - ksemi(key) - 7, 12) == 0))
 
 //@ func CircleOfFifth.SubDominant returns (m, err)
+//@   enumerate key in keySignatures
 //@   requires wfCOF(c)
 //@   ensures (err == nil) == supported(key)
 //@   ensures err == nil ==> forall(k, Key, dom(m.scales, k) == (supported(k) && k.Minor == key.Minor && spec.fmod(ksemi(k) - ksemi(key) + 7, 12) == 0))
 
 //@ func CircleOfFifth.Relative returns (m, err)
+//@   enumerate key in keySignatures
 //@   requires wfCOF(c)
 //@   ensures (err == nil) == supported(key)
-//@   ensures err == nil ==> forall(k, Key, dom(m.scales, k) == (supported(k) && k.Minor == !key.Minor && ksig(k) == ksig(key)))
+//@   ensures err == nil ==> forall(k, Key, dom(m.scales, k) == (supported(k) && k.Minor == !key.Minor && spec.fmod(ksig(k) - ksig(key), 12) == 0))
 
 //@ func CircleOfFifth.Parallel returns (m, err)
+//@   enumerate key in keySignatures
 //@   requires wfCOF(c)
 //@   ensures (err == nil) == supported(key)
 //@   ensures err == nil ==> forall(k, Key, dom(m.scales, k) == (supported(k) && k.Minor == !key.Minor && spec.fmod(ksemi(k) - ksemi(key), 12) == 0))
